@@ -24,7 +24,7 @@ worker() {
     git -C $C checkout -q -- . ; git -C $C clean -fdq
     if ! git -C $C apply $d/patch.diff 2>$SV/apply.err; then echo "$id: patch does not apply: $(head -1 $SV/apply.err)"; continue; fi
     rm -rf $SV/evidence
-    $V/bin/ggqlcheck -repo $C -verif $SV -property all -tier quick -no-controls -list > $SV/out.txt 2>&1
+    ${BIN:-$V/bin/ggqlcheck} -repo $C -verif $SV -property all -tier quick -no-controls -list > $SV/out.txt 2>&1
     prop=$(python3 -c "import json;print(json.load(open('$d/meta.json'))['property'])")
     python3 - $SV/evidence/violations $C > $d/check_output.txt <<'PY'
 import json,glob,sys
